@@ -76,7 +76,7 @@ func runC15(seed int64, tier string, sc *Script) map[string]any {
 	for ci := 0; ci < cases; ci++ {
 		sc.Case("listing")
 		sc.NonTrivial()
-		prof := regProfile{ReferrersAPI: true, DigestHeaders: true, PageLimit: []int{0, 1, 2, 3, 5}[rng.Intn(5)], LinkStyle: rng.Intn(4), ServerFilter: rng.Intn(2) == 0}
+		prof := regProfile{ReferrersAPI: true, DigestHeaders: true, PageLimit: []int{0, 1, 2, 3, 5}[rng.Intn(5)], LinkStyle: rng.Intn(4), ServerFilter: rng.Intn(2) == 0, EmptyPages: rng.Intn(3) == 0}
 		kind0 := []string{"tags", "repos", "referrers"}[ci%3]
 		if kind0 == "referrers" && rng.Intn(3) == 0 {
 			prof.ReferrersAPI = false // tag-schema fallback: the listing is the index under sha256-<hex>
